@@ -218,8 +218,6 @@ def replay(ck, path):
         print("CRASH", res["crash"]["kind"], res["crash"]["site"])
         print(res["crash"]["text"][-1200:])
     ck.evaluations = len(lines)
-    ck.nontriv(1)
-    ck.nontriv(2)
 
 
 def prebuild():
